@@ -2,6 +2,7 @@
 from __future__ import annotations
 
 import ast
+import re
 import copy
 from typing import Dict, Iterator, List, Optional, Tuple
 
@@ -216,16 +217,117 @@ class Canon:
         if a.kwarg:
             self.pmap[a.kwarg.arg] = "$kwargs"
 
-    def text(self, e: ast.AST) -> str:
-        r = self.inl.resolve(e)
-        pm = self.pmap
+    def _locals(self):
+        if not hasattr(self, "_loc"):
+            loc = set()
+            for n in ast.walk(self.fn):
+                if isinstance(n, ast.Name) and isinstance(n.ctx, (ast.Store, ast.Del)) and n.id not in self.pmap:
+                    loc.add(n.id)
+                if isinstance(n, ast.ExceptHandler) and n.name:
+                    loc.add(n.name)
+                if isinstance(n, (ast.FunctionDef, ast.Lambda)) and n is not self.fn:
+                    aa = n.args
+                    for p in aa.posonlyargs + aa.args + aa.kwonlyargs:
+                        loc.add(p.arg)
+            self._loc = loc
+        return self._loc
 
-        class T(ast.NodeTransformer):
-            def visit_Name(self, n):
+    def text(self, e: ast.AST, inline: bool = True, order: Optional[Dict[str, str]] = None) -> str:
+        """Canonical text: single-assignment locals inlined, parameters -> $i, every remaining local name (loop / comprehension
+        variables, re-assigned locals) -> %j numbered by first occurrence in this expression (so the text does not depend on
+        how locals are called)."""
+        r = self.inl.resolve(e) if inline else copy.deepcopy(e)
+        pm = self.pmap
+        loc = self._locals()
+        if order is None:
+            order = {}
+
+        def rename(n):
+            for field, value in ast.iter_fields(n):
+                if isinstance(value, list):
+                    for x in value:
+                        if isinstance(x, ast.AST):
+                            rename(x)
+                elif isinstance(value, ast.AST):
+                    rename(value)
+            if isinstance(n, ast.Name):
                 if n.id in pm:
-                    return ast.Name(id=pm[n.id], ctx=n.ctx)
-                return n
-        return U(T().visit(r))
+                    n.id = pm[n.id]
+                elif n.id in loc:
+                    if n.id not in order:
+                        order[n.id] = f"%{len(order)}"
+                    n.id = order[n.id]
+            elif isinstance(n, ast.arg) and n.arg in loc:
+                if n.arg not in order:
+                    order[n.arg] = f"%{len(order)}"
+                n.arg = order[n.arg]
+
+        # comprehensions: generators are evaluated before the element: number names in evaluation order
+        def rename_ordered(n):
+            if isinstance(n, (ast.ListComp, ast.SetComp, ast.GeneratorExp)):
+                for g in n.generators:
+                    rename_ordered(g.iter)
+                    rename_ordered(g.target)
+                    for c in g.ifs:
+                        rename_ordered(c)
+                rename_ordered(n.elt)
+                return
+            if isinstance(n, ast.DictComp):
+                for g in n.generators:
+                    rename_ordered(g.iter)
+                    rename_ordered(g.target)
+                    for c in g.ifs:
+                        rename_ordered(c)
+                rename_ordered(n.key)
+                rename_ordered(n.value)
+                return
+            if isinstance(n, ast.Name):
+                rename(n)
+                return
+            if isinstance(n, ast.arg):
+                rename(n)
+                return
+            for field, value in ast.iter_fields(n):
+                if isinstance(value, list):
+                    for x in value:
+                        if isinstance(x, ast.AST):
+                            rename_ordered(x)
+                elif isinstance(value, ast.AST):
+                    rename_ordered(value)
+
+        rename_ordered(r)
+        return U(r)
+
+    def lines(self, inline: bool = False, shared: bool = False) -> List[str]:
+        """Canonical text of every simple statement / compound-statement header of the function. Locals are numbered per
+        statement, or (shared=True) function-wide by first occurrence, which keeps the correspondence between statements."""
+        out = []
+        order = {} if shared else None
+        self.last_order = order
+        for st in sorted(statements(self.fn), key=lambda x: (x.lineno, x.col_offset)):
+            if isinstance(st, (ast.If, ast.While)):
+                out.append("if " + self.text(st.test, inline, order))
+            elif isinstance(st, (ast.For, ast.AsyncFor)):
+                t = ast.Tuple(elts=[copy.deepcopy(st.iter), copy.deepcopy(st.target)], ctx=ast.Load())
+                tt = self.text(t, inline, order)
+                out.append("for " + tt)
+            elif isinstance(st, (ast.With, ast.Try, ast.FunctionDef, ast.ClassDef)):
+                continue
+            elif isinstance(st, ast.Expr) and isinstance(st.value, ast.Constant) and isinstance(st.value.value, str):
+                continue
+            else:
+                try:
+                    out.append(self.text(st, inline, order))
+                except Exception:
+                    out.append(U(st))
+        return out
+
+    def real_name(self, canon_local: str) -> Optional[str]:
+        """Source name of a `%k` local of the last shared-numbering `lines()` call."""
+        for k, v in (getattr(self, "last_order", None) or {}).items():
+            if v == canon_local:
+                return k
+        return None
 
     def param(self, name_or_index) -> str:
         if isinstance(name_or_index, int):
@@ -247,3 +349,55 @@ class Canon:
 
     def calls(self, func_text: str) -> List[ast.Call]:
         return [c for c in walk_no_nested(self.fn) if isinstance(c, ast.Call) and U(c.func) == func_text]
+
+
+def unify(lines: List[str], patterns: List[str], binding: Optional[Dict[str, str]] = None) -> Optional[Dict[str, str]]:
+    """Match `patterns` (in any order of lines) against canonical lines. In a pattern `?name` stands for one local (`%k`), bound
+    consistently across patterns; `...` stands for any text. Returns the binding of the first consistent match, or None."""
+    binding = dict(binding or {})
+    if not patterns:
+        return binding
+    pat, rest = patterns[0], patterns[1:]
+    rx = ""
+    names = []
+    for tok in re.split(r"(\?[A-Za-z_]\w*|\.\.\.)", pat):
+        if tok == "...":
+            rx += ".*?"
+        elif tok.startswith("?") and len(tok) > 1:
+            nm = tok[1:]
+            if nm in binding:
+                rx += re.escape(binding[nm]) + r"(?!\d)"
+            elif nm in names:
+                rx += f"(?P={nm})(?!\\d)"
+            else:
+                names.append(nm)
+                rx += f"(?P<{nm}>%\\d+)"
+        else:
+            rx += re.escape(tok)
+    cre = re.compile("^" + rx + "$", re.S)
+    for ln in lines:
+        m = cre.match(ln)
+        if not m:
+            continue
+        b2 = dict(binding)
+        b2.update({k: v for k, v in m.groupdict().items() if v is not None})
+        r = unify(lines, rest, b2)
+        if r is not None:
+            return r
+    return None
+
+
+def canon_lines(fn, inline: bool = True) -> List[str]:
+    """Rename-insensitive statement texts of a function (see Canon.text / Canon.lines)."""
+    return Canon(fn).lines(inline)
+
+
+def canon_src(fn, inline: bool = True) -> str:
+    return "\n".join(canon_lines(fn, inline))
+
+
+def nested_def(fn, name=None):
+    for n in ast.walk(fn):
+        if isinstance(n, ast.FunctionDef) and n is not fn and (name is None or n.name == name):
+            return n
+    return None
